@@ -169,6 +169,26 @@ pub fn decode_all(shape: &Shape, input: &[u8]) -> Result<Vec<Decoded>, String> {
         remainder_ok: true,
         log,
     });
+    // from_io with a reader that delivers 1-3 bytes per call and answers every other call with Interrupted first
+    // (std::io convention: Interrupted is not an error, the read is simply repeated)
+    {
+        let mut scratch = vec![0u8; input.len() + 16];
+        let rd = crate::iodoubles::SharedReader::new(crate::iodoubles::ChunkReader::new(
+            input,
+            crate::iodoubles::Schedule { chunks: vec![1, 3, 2], interrupt_every: 2 },
+            crate::iodoubles::Fault::None,
+        ));
+        let (r, log) = with_shape(shape, || no_panic(|| postcard::from_io::<Dyn, _>((rd.clone(), &mut scratch[..])).map(|(d, _)| d)));
+        let r = r?;
+        let consumed = r.as_ref().ok().map(|_| rd.pos());
+        out.push(Decoded {
+            name: "from_io(short reads, Interrupted)",
+            result: r.map(|d| d.0),
+            consumed,
+            remainder_ok: true,
+            log,
+        });
+    }
     // from_io with a scratch buffer of exactly the size this message routes through it
     if let Ok(d) = crate::refcodec::ref_decode(shape, input) {
         let exact = scratch_need(shape, &d.value);
